@@ -17,7 +17,7 @@ import ast
 from fractions import Fraction as F
 
 from ..fold import NotConst
-from ..model import AnalysisError, U, walk_no_nested
+from ..model import npos, AnalysisError, U, walk_no_nested
 
 S, MIN, H, D, W = F(1), F(60), F(3600), F(86400), F(604800)
 # nominal units are formal (incommensurable) scales
@@ -444,7 +444,7 @@ class ScaleAnalysis:
                     env[p] = pv
         rets = []
         order = [n for n in ast.walk(f.node) if isinstance(n, ast.stmt)]
-        order.sort(key=lambda n: (n.lineno, n.col_offset))
+        order.sort(key=npos)
         for _pass in range(2):
             last = _pass == 1
             keep = self._collect
